@@ -970,7 +970,9 @@ defvjp(anp._array_from_scalar_or_array, array_from_scalar_or_array_gradmaker, ar
 @primitive
 def untake(x, idx, vs):
     if isinstance(idx, list) and (len(idx) == 0 or not isinstance(idx[0], slice)):
-        idx = onp.array(idx, dtype="int64")
+        idx = onp.array(idx)
+        if idx.dtype != bool:  # a list of booleans is a mask, not a list of positions
+            idx = idx.astype("int64")
 
     def mut_add(A):
         if not isinstance(A, onp.ndarray):
